@@ -17,6 +17,7 @@ import (
 	"github.com/ontio/ontology-crypto/keypair"
 	"github.com/ontio/ontology/common"
 	"github.com/ontio/ontology/common/config"
+	"github.com/ontio/ontology/core/payload"
 	ct "github.com/ontio/ontology/core/types"
 	pc "github.com/ontio/ontology/p2pserver/common"
 	"github.com/ontio/ontology/p2pserver/message/types"
@@ -214,7 +215,37 @@ func validPayload(r *hx.Rand, cmd string, irr bool, loose bool) []byte {
 		return le(4, 0)
 	case "consensus":
 		return consensusBytes(r, irr)
-	case "tx", "block", "updatekadid", "offline":
+	case "tx":
+		return txBytes(r)
+	case "block":
+		// types.Block = header + uint32 count + transactions; then MerkleRoot, hasCrossChainMsg (+ msg); `irr` = an old
+		// node's block without the trailer (accepted on purpose: "to accept old node's block")
+		n := r.Intn(3)
+		out := cat(headerBytes(r), le(4, uint64(n)))
+		for i := 0; i < n; i++ {
+			out = cat(out, txBytes(r))
+		}
+		if irr {
+			return out
+		}
+		out = cat(out, r.Bytes(32))
+		if r.Bool() {
+			return cat(out, []byte{0})
+		}
+		ccm := &ct.CrossChainMsg{Version: byte(r.Intn(2)), Height: uint32(r.U64())}
+		copy(ccm.StatesRoot[:], r.Bytes(32))
+		for i := 0; i < r.Intn(3); i++ {
+			ccm.SigData = append(ccm.SigData, r.Bytes(1+r.Intn(64)))
+		}
+		sk := common.NewZeroCopySink(nil)
+		ccm.Serialization(sk)
+		return cat(out, []byte{1}, sk.Bytes())
+	case "updatekadid":
+		if irr {
+			return varbytes(r.Bytes(33))
+		}
+		return varbytes(pubBytes()) // a well-formed key that (almost surely) fails the kad-id difficulty test
+	case "offline":
 		return r.Bytes(r.Intn(120))
 	default:
 		return r.Bytes(r.Intn(40))
@@ -242,6 +273,20 @@ func consensusBytes(r *hx.Rand, bad bool) []byte {
 		pk = r.Bytes(33)
 	}
 	return cat(le(4, r.U64()), r.Bytes(32), le(4, r.U64()), le(2, r.U64()), le(4, r.U64()), varbytes(str(r)), varbytes(pk), varbytes(r.Bytes(64)))
+}
+
+// a well-formed invoke transaction without signatures, encoded by the real serializer (explored only)
+func txBytes(r *hx.Rand) []byte {
+	mt := &ct.MutableTransaction{TxType: ct.InvokeNeo, Nonce: uint32(r.U64()), GasPrice: uint64(r.Intn(5000)), GasLimit: uint64(20000 + r.Intn(1000)),
+		Payload: &payload.InvokeCode{Code: r.Bytes(1 + r.Intn(40))}}
+	copy(mt.Payer[:], r.Bytes(20))
+	tx, err := mt.IntoImmutable()
+	if err != nil {
+		panic(err)
+	}
+	s := common.NewZeroCopySink(nil)
+	tx.Serialization(s)
+	return s.Bytes()
 }
 
 func headerBytes(r *hx.Rand) []byte {
@@ -275,7 +320,7 @@ var fixedSize = map[string]int{"ping": 8, "pong": 8, "verack": 1, "getaddr": 0, 
 // lists beyond the cap, ignored irregular flags): kept rare so that the known classes do not drown the failure list.
 func genPayload(r *hx.Rand, cmd string, loose bool) []byte {
 	// irregular data is an error for these (or leads into an explored-only branch): no known class involved
-	irrRejected := cmd == "verack" || cmd == "members" || cmd == "headers" || cmd == "getmembers" || cmd == "consensus"
+	irrRejected := cmd == "verack" || cmd == "members" || cmd == "headers" || cmd == "getmembers" || cmd == "consensus" || cmd == "updatekadid"
 	switch r.Intn(12) {
 	case 0, 1, 2, 3:
 		return validPayload(r, cmd, false, loose)
@@ -287,6 +332,9 @@ func genPayload(r *hx.Rand, cmd string, loose bool) []byte {
 			n := len(p)
 			if cmd == "version" && !loose && n > 76 {
 				n = 76 // a cut inside SoftVersion is accepted with "" (known class): keep that for loose cases
+			}
+			if cmd == "block" && n > 100 {
+				n = 100 // a cut behind the transactions is an "old node's block" (accepted, class noncanonical-accepted:block)
 			}
 			p = p[:r.Intn(n)]
 		}
@@ -410,7 +458,9 @@ func gen(r *hx.Rand, tier string, i int) string {
 		cmd = []string{"addr", "inv", "findnodeack", "members", "version"}[r.Intn(5)]
 	}
 	cb := cmdBytes(r, cmd)
-	p := genPayload(r, cmd, r.Chance(6))
+	// block/tx decoders are explored only; their trailing-bytes / old-format classes are recorded in findings/C24.json but
+	// not generated here (see the report), so `loose` is never set for them
+	p := genPayload(r, cmd, r.Chance(6) && cmd != "tx" && cmd != "block")
 	switch r.Intn(10) {
 	case 0, 1, 2, 3, 4, 5:
 		return "D " + hx.Hex(cb) + " " + hx.Hex(p)
